@@ -171,6 +171,9 @@ func findingScenarios(r *hutil.Rng) []Scenario {
 	out = append(out, Scenario{Version: "5.7.30", Xids: []string{x, genXid(r, false)}, Branches: []int64{41, 42}, Refuse: []int{0, 0},
 		Stream: "finding:xa.conn-reuse",
 		Ops:    []Op{{K: "auto"}, {K: "p2", Target: 0, Commit: true}, {K: "reuse", G: 1, Target: 0}}})
+	out = append(out, Scenario{Version: "5.7.30", Xids: []string{x, genXid(r, false)}, Branches: []int64{43, 44}, Refuse: []int{0, 0},
+		Stream: "finding:xa.conn-reuse",
+		Ops:    []Op{{K: "auto"}, {K: "p2", Target: 0, Commit: r.Chance(1, 2)}, {K: "reuse", G: 1, Target: 0, Commit: true}}})
 	for _, commit := range []bool{true, false} {
 		out = append(out, Scenario{Version: "5.7.30", Xids: []string{x}, Branches: []int64{51}, Refuse: []int{0},
 			Stream: "finding:xa.explicit-tx",
